@@ -2,6 +2,7 @@ package main
 
 import (
 	"bufio"
+	"go/token"
 	"go/types"
 	"encoding/json"
 	"fmt"
@@ -121,6 +122,21 @@ func funcFactsD(fn *ssa.Function, depth int, onStack map[*ssa.Function]bool) map
 					}
 				case *ssa.Panic:
 					facts["panic"]++
+				case *ssa.BinOp:
+					// coarse arithmetic fingerprint: operator classes only (a != b vs !(a == b), i++ vs i += 1 agree)
+					switch x.Op {
+					case token.ADD, token.SUB:
+						if _, isStr := x.Type().Underlying().(*types.Basic); isStr && x.Type().Underlying().(*types.Basic).Info()&types.IsString != 0 {
+							break
+						}
+						facts["arith:addsub"]++
+					case token.MUL, token.QUO, token.REM:
+						facts["arith:muldiv"]++
+					case token.SHL, token.SHR, token.AND, token.OR, token.XOR, token.AND_NOT:
+						facts["arith:bits"]++
+					case token.EQL, token.NEQ, token.LSS, token.LEQ, token.GTR, token.GEQ:
+						facts["arith:compare"]++
+					}
 				}
 			}
 		}
